@@ -307,17 +307,33 @@ func ParseSpec(s string) (*Spec, error) {
 		if err != nil {
 			return nil, err
 		}
+		// History: an encoder is a value a program builds once and keeps.  Every odd-numbered use of
+		// a spec goes to the instance built at its first use (kept alive since then, while encoders
+		// for other specs were built and used); every even-numbered use builds a fresh one.
+		teUses[s]++
+		if sp, ok := teHeld[s]; ok && teUses[s]%2 == 1 {
+			return sp, nil
+		}
 		te, err := encode.NewTypeEncoderEndianByType(t, bo)
 		if err != nil {
 			return nil, err
 		}
-		return &Spec{Name: s, Enc: te, Type: t,
+		sp := &Spec{Name: s, Enc: te, Type: t,
 			Parse: func(s string) (interface{}, error) { return ParseTyped(t, s) },
 			Show:  ShowTyped,
-		}, nil
+		}
+		if _, ok := teHeld[s]; !ok && len(teHeld) < 50000 {
+			teHeld[s] = sp
+		}
+		return sp, nil
 	}
 	return nil, fmt.Errorf("bad spec %q", s)
 }
+
+var (
+	teHeld = map[string]*Spec{}
+	teUses = map[string]int{}
+)
 
 func try(f func() string) string { return lp.Catch(f) }
 
@@ -774,8 +790,10 @@ func GenC15(c *lp.Ctx) {
 		if err != nil {
 			panic(err)
 		}
-		for _, bo := range []string{"le", "be"} {
-			for k := 0; k < 2; k++ {
+		// le, le, be, be, then le once more: the third le use goes to the instance built first
+		var hist []string
+		for bi, bo := range []string{"le", "be", "le"} {
+			for k := 0; k < 2-bi/2; k++ {
 				val := RandLeaves(r, t)
 				v, _ := ParseTyped(t, val)
 				want := OracleTyped(reflect.ValueOf(v), bo == "be", nil)
@@ -783,13 +801,14 @@ func GenC15(c *lp.Ctx) {
 				spec := "te:" + bo + ":" + ty
 				line := fmt.Sprintf("enc.rt %s %s %s", spec, val, lp.X(g.tail()))
 				ans := c.Do(line)
+				hist = append(hist, line)
 				c.Hit(cls)
 				c.Case(spec+" "+val, true)
 				n := strconv.Itoa(len(want))
 				exp := fmt.Sprintf("%s %s %s %s %s", lp.X(want), n, val, n, n)
 				if ans != exp {
-					c.Violate(lp.Violation{What: "C15 TypeEncoder field-by-field layout / round trip",
-						Script: []string{line}, Expected: clip(exp), Got: clip(ans)})
+					c.Violate(lp.Violation{What: "C15 TypeEncoder field-by-field layout / round trip (last line of the history of this type)",
+						Script: append([]string{}, hist...), Expected: clip(exp), Got: clip(ans)})
 				}
 				if len(c.Samples) < 8 && len(line) < 200 && strings.Contains(ty, "s") && strings.Contains(ty, "a") {
 					c.Sample(line + " => " + ans)
